@@ -2,7 +2,7 @@
 #![allow(dead_code, unused_imports)]
 // Oracle (from the statement): the result table is the same for every permutation of the input lines; over a concatenation
 // counts and sums add, minima and maxima combine and the groups are the union.  Grid: every multiset of up to 4 lines over a
-// 7-line pool (INT and NULL arguments, three groups) - all its permutations - x 6 statements (COUNT, COUNT(c), COUNT(DISTINCT),
+// 7-line pool (INT and NULL arguments, three groups) - all its permutations - x 8 statements (COUNT, COUNT(c), COUNT(DISTINCT),
 // SUM, MIN, MAX, AVG, PERCENTILE, BOOL_AND, BOOL_OR, with GROUP BY / WHERE / HAVING); STDDEV / VARIANCE on values whose
 // sums are exactly representable, compared to 9 decimals; every cut of every sequence of up to 4 lines into two parts for
 // COUNT / SUM / MIN / MAX per group.
@@ -80,6 +80,8 @@ fn verif_grid() {
         "SELECT k, BOOL_AND(v > 0) AS every, BOOL_OR(v > 1) AS some FROM t GROUP BY k",
         "SELECT k, SUM(v) AS s FROM t WHERE v IS NOT NULL GROUP BY k HAVING COUNT(*) > 1",
         "SELECT v, COUNT(*) AS n, MIN(k) AS first, MAX(k) AS last FROM t GROUP BY v",
+        "SELECT k, COUNT(DISTINCT v) AS d FROM t GROUP BY k",
+        "SELECT v, COUNT(DISTINCT k) AS d FROM t GROUP BY v HAVING COUNT(DISTINCT k) >= 1",
     ];
     // multisets = non-decreasing index sequences
     let idx: Vec<String> = (0..pool.len()).map(|i| i.to_string()).collect();
